@@ -34,10 +34,10 @@ HeadSize     == HasLine => /\ ToSet(E.head) \subseteq ToSet(E.window)
 IterShrinks  == HasLine => E.chosen # <<>>                                  \* every iteration removes something
 ChosenInWindow == HasLine => ToSet(E.chosen) \subseteq ToSet(E.window)
 ChosenOnce   == HasLine => Cardinality(ToSet(E.chosen)) = Len(E.chosen)
-IterBound    == Len(R.iters) <= R.total + 1
+IterBound    == Len(R.iters) <= R.total + 1                                 \* the modelled algorithm removes >= 1 unit per iteration
 (* at the end *)
 AtEnd == l = Len(R.iters) + 1
-ObsAllRemoved == AtEnd => (R.finished = 1 => rem = {})
+ObsAllRemoved == AtEnd => ((R.finished = 1 /\ R.bb = 0) => rem = {})     \* bb = 1: the iterations could not be observed
 ObsFinished == AtEnd => R.finished = 1                                      \* the call returned (no stall, no exception)
 ObsResultPartition == (AtEnd /\ R.finished = 1) =>
     /\ Len(R.result) = R.total /\ ToSet(R.result) = 0..(R.total - 1)
